@@ -45,6 +45,8 @@ static void run_C14(const Args &a, long cs) {
 	s.coef.resize(tot); for (auto &c : s.coef) c = ones ? 1.f : (float)(r.U() - 0.3);
 	int n = r.range(2, 6); // kernel knots
 	std::vector<double> tau; { double y0 = -r.U(); double wscale = std::pow(10.0, r.U() * 2 - 1.3); bool sym = r.coin(0.3); for (int i = 0; i < n; i++) { tau.push_back(y0); y0 += (0.1 + r.U()) * wscale; } if (sym) { double c0 = 0.5 * (tau[0] + tau.back()); for (auto &t : tau) t -= c0; for (int i = 0; i < n / 2; i++) tau[n - 1 - i] = -tau[i]; if (n % 2) tau[n / 2] = 0; std::sort(tau.begin(), tau.end()); for (int i = 1; i < n; i++) if (!(tau[i] > tau[i - 1])) tau[i] = tau[i - 1] + 0.01 * wscale; } }
+	// the unit of the convolved axis: the convolution commutes with a change of unit, so the same table with nanosecond-sized or mega-sized coordinates must do as well
+	{ static const double units[] = {1, 1, 1, 1, 1, 1e-9, 1e-7, 1e-3, 1e3, 1e6}; double u = units[r.below(10)]; if (u != 1) { for (auto &kk : s.knots[dim]) kk *= u; for (auto &tt : tau) tt *= u; bool inc = true; for (size_t i = 1; i < s.knots[dim].size(); i++) if (!(s.knots[dim][i] > s.knots[dim][i - 1])) inc = false; for (int i = 1; i < n; i++) if (!(tau[i] > tau[i - 1])) inc = false; if (!inc) return; char b[32]; snprintf(b, sizeof b, "%g", u); count(std::string("axis-unit:") + b); } else count("axis-unit:1"); }
 	s.flavor = "conv";
 	Table T; if (!load(T, s)) { viol("C14:load:well-formed-table-rejected", s.full_json()); return; }
 	Table T2; load(T2, s);
@@ -245,6 +247,43 @@ static void run_C17(const Args &a, long cs) {
 	if (cs % 20 == 0) sample(gj);
 }
 
+// ================================================================ C14thr / C17thr: the same operations on independent tables in concurrent threads
+// Every thread owns its table (loaded beforehand, sequentially); the result must be bit-identical to the one obtained sequentially. Built for the
+// production flags (value comparison) and with ThreadSanitizer (any report on state shared behind the caller's back).
+#include <thread>
+#include <atomic>
+static uint64_t table_digest(const Table &T) {
+	uint64_t h = hash_mix(77, T.get_ndim());
+	for (unsigned d = 0; d < T.get_ndim(); d++) { h = hash_mix(h, T.get_order(d)); for (uint64_t i = 0; i < T.get_nknots(d); i++) h = hash_d(h, T.get_knot(d, i)); h = hash_d(h, T.lower_extent(d)); h = hash_d(h, T.upper_extent(d)); }
+	const float *c = T.get_coefficients(); for (uint64_t i = 0; i < T.get_ncoeffs(); i++) { uint32_t u; memcpy(&u, c + i, 4); h = hash_mix(h, u); }
+	return h;
+}
+static void run_thr(const Args &a, long cs, bool conv) {
+	Rng r(a.seed, conv ? "C14thr" : "C17thr", cs);
+	const int NT = 4; std::vector<Spec> sp(NT); std::vector<std::vector<double>> tau(NT); std::vector<int> dims(NT); std::vector<std::vector<std::vector<double>>> grids(NT);
+	for (int t = 0; t < NT; t++) {
+		int nd = r.range(1, 3); Spec s; size_t tot = 1; dims[t] = (int)r.below(nd);
+		for (int d = 0; d < nd; d++) { unsigned o = (unsigned)r.below(4); int nk = 2 * o + 2 + (int)r.below(5); s.order.push_back(o); s.knots.push_back(gen_knots(r, o, nk, 1, 1.0, r.U() * 4 - 2, true)); tot *= (size_t)(nk - o - 1); }
+		s.coef.resize(tot); for (auto &c : s.coef) c = r.coin(0.3) ? 0.f : (float)(r.U() - 0.3); s.coef[r.below(tot)] = 1.f; s.flavor = "thr"; sp[t] = s;
+		int n = r.range(2, 4); double y0 = -r.U(); for (int i = 0; i < n; i++) { tau[t].push_back(y0); y0 += 0.1 + r.U(); }
+		grids[t].resize(nd); for (int d = 0; d < nd; d++) { int np = 2 + (int)r.below(6); for (int i = 0; i < np; i++) grids[t][d].push_back(s.knots[d][0] + (s.knots[d].back() - s.knots[d][0]) * r.U()); }
+	}
+	auto job = [&](int t, Table &T) -> uint64_t {
+		if (conv) { T.convolve((uint32_t)dims[t], tau[t].data(), tau[t].size()); return table_digest(T); }
+		std::unique_ptr<photospline::ndsparse> nds = T.grideval(grids[t]); uint64_t h = hash_mix(5, nds->rows); for (size_t q = 0; q < nds->rows; q++) { for (size_t d = 0; d < nds->ndim; d++) h = hash_mix(h, nds->i[d][q]); h = hash_d(h, nds->x[q]); } return h;
+	};
+	std::vector<uint64_t> seqd(NT), thrd(NT, 0); std::vector<Table> seqT(NT), thrT(NT); std::vector<int> failed(NT, 0);
+	for (int t = 0; t < NT; t++) { if (!load(seqT[t], sp[t]) || !load(thrT[t], sp[t])) { viol(std::string(conv ? "C14" : "C17") + ":load:well-formed-table-rejected", sp[t].full_json()); return; } }
+	phase_log(conv ? "sequential convolutions" : "sequential grid evaluations");
+	for (int t = 0; t < NT; t++) { try { seqd[t] = job(t, seqT[t]); } catch (std::exception &e) { viol(std::string(conv ? "C14:convolve" : "C17:grideval") + ":threw-on-valid-input", "{\"what\":" + jstr(e.what()) + "}"); return; } }
+	phase_log(conv ? "concurrent convolutions" : "concurrent grid evaluations");
+	std::atomic<int> go(0); std::vector<std::thread> th;
+	for (int t = 0; t < NT; t++) th.emplace_back([&, t]() { go.fetch_add(1); while (go.load() < NT) { } try { thrd[t] = job(t, thrT[t]); } catch (...) { failed[t] = 1; } });
+	for (auto &x : th) x.join();
+	count(conv ? "concurrent-convolution-rounds" : "concurrent-grideval-rounds"); count("concurrent-operations", NT);
+	for (int t = 0; t < NT; t++) { distinct(hash_mix(seqd[t], t)); if (failed[t] || thrd[t] != seqd[t]) { viol(std::string(conv ? "C14:convolve" : "C17:grideval") + ":result-differs-when-run-concurrently-with-calls-on-other-tables", "{\"threw\":" + std::to_string(failed[t]) + ",\"table\":" + sp[t].brief() + "}"); break; } }
+}
+
 int main(int argc, char **argv) {
 	Args a = parse_args(argc, argv);
 	open_out(a.outpath);
@@ -253,6 +292,8 @@ int main(int argc, char **argv) {
 		if (a.prop == "C14") run_C14(a, cs);
 		else if (a.prop == "C15") run_C15(a, cs);
 		else if (a.prop == "C17") run_C17(a, cs);
+		else if (a.prop == "C14thr") { prop_id() = "C14"; run_thr(a, cs, true); }
+		else if (a.prop == "C17thr") { prop_id() = "C17"; run_thr(a, cs, false); }
 		else { fprintf(stderr, "unknown mode %s\n", a.prop.c_str()); return 2; }
 	}
 	for (auto &kv : g_worst) out().counters["max-ratio-x1000:order+kernelknots=" + std::to_string(kv.first)] = (long)(kv.second * 1000);
